@@ -34,6 +34,7 @@ def register(reg, S):
         else:
             dflt = f"result.{f} is None"
         ens.append((f"{f}/default-when-absent", f"implies(not {present(f)}, {dflt})"))
+    ens.append(("resolution/comes-from-a-resolution-line", f"exists(0, len({L}), lambda k: fieldm('resolution', {L}[k]) and result.resolution == pyint(fieldg('resolution', {L}[k])))"))
     for f in INT_FIELDS:
         pat = md._field_parsing_specs[f].regex_prog.pattern
         reg.rx_facts.setdefault(pat, []).append((1, "digits"))
